@@ -9,6 +9,9 @@ Public entry points (each takes the Check object and an open `lean.Driver("drive
     check_c04_descriptor(chk, driver)  ufcx_expression descriptor fields (IR, generated C text, and read back
                                        through cffi for one batch) vs `exprDesc`; error branches; the property's
                                        own oracle "descriptor describes the layout of w and c"
+    check_c04_stores(chk, driver)      every store into A of every expression kernel (exported AST) has the MultiIndex shape
+                                       `exprAShape` = [P, C(, D)] and (point, component, dof) symbols in that order
+                                       (decidable `exprStoresB`, theorems expr_store_slot / expr_store_slot_rank0)
     check_tensor_sizes(chk, driver)    common.tensor_sizes(ir) (A, w, c, coordinate_dofs of integrals and expressions) vs
                                        Layout.lean and vs the UFCx contract extents computed from UFL/basix
 
@@ -38,6 +41,14 @@ C05_THEOREMS = [
     "Ffcx.Layout.flatten_lt",
     "Ffcx.Layout.flatten_inj",
     "Ffcx.Layout.flatIdx_eq_flatComponent",
+]
+C04_STORE_MODULE = "FfcxProofs.C04"
+C04_STORE_FILES = [LEAN / "FfcxModel/LNodes/ExprStores.lean"]
+C04_STORE_THEOREMS = [
+    "Ffcx.LNodes.expr_store_slot",
+    "Ffcx.LNodes.expr_store_slot_rank0",
+    "Ffcx.LNodes.exprStores_sound",
+    "Ffcx.LNodes.eqE_sound",
 ]
 C04_THEOREMS = [
     "Ffcx.Layout.expr_layout",
@@ -550,8 +561,18 @@ def _model_exprdesc(driver, original, processed, points):
 _FIELD = re.compile(r"\.(num_coefficients|num_constants|num_points|entity_dimension|num_components|rank)\s*=\s*(\d+)")
 
 
+class TemplateChanged(Exception):
+    """a field of the generated text cannot be read any more (template rename): reported through chk.disagree"""
+
+
 def _parse_c_descriptor(src, name):
-    d = {k: int(v) for k, v in _FIELD.findall(src[src.index(f"ufcx_expression {name} ="):])}
+    at = src.find(f"ufcx_expression {name} =")
+    if at < 0:
+        raise TemplateChanged(f"ufcx_expression {name} = {{…}}")
+    d = {k: int(v) for k, v in _FIELD.findall(src[at:])}
+    missing = [k for k in ("num_coefficients", "num_constants", "num_points", "entity_dimension", "num_components", "rank") if k not in d]
+    if missing:
+        raise TemplateChanged("ufcx_expression members " + ", ".join(missing))
     m = re.search(rf"value_shape_{name}\[(\d+)\] = \{{([^}}]*)\}}", src)
     d["value_shape"] = [int(x) for x in m.group(2).split(",")] if m else []
     m = re.search(rf"original_coefficient_positions_{name}\[(\d+)\] = \{{([^}}]*)\}}", src)
@@ -560,6 +581,53 @@ def _parse_c_descriptor(src, name):
     d["points_len"] = int(m.group(1)) if m else 0
     d["c_reads"] = sorted({int(g) for g in _C_IDX.findall(src)})
     return d
+
+
+def check_c04_stores(chk, driver):
+    """C04 tie between the real expression kernels and `expr_layout`: for every expression kernel of the corpus (and the
+    seeded expressions of `_expr_cases`) the driver decides `exprStoresB (exprAShape …) ast` on the exported AST — every
+    store into A is `A[MultiIndex([iq, <component literal>, <dof expression>], [P, C, D])]` exactly as lnodes.MultiIndex builds
+    it, with P, C, D computed here from UFL (number of points, product of the value shape, argument element dimension).
+    Returns the number of kernels checked."""
+    import warnings
+
+    from . import kernels
+
+    quick = chk.tier == "quick"
+    done = 0
+    todo = [(f"{e.name}#{i}", (lambda o=o: o), None) for e in corpus.expressions() for i, o in enumerate(e.build())]
+    names = {e.name for e in corpus.expressions()}
+    todo += [t for t in _expr_cases(chk.seed, quick) if t[0] not in names]
+    for name, build, exc in todo:
+        if exc is not None:
+            continue
+        expr, pts = build()
+        pts = np.asarray(pts, dtype=float)
+        try:
+            with warnings.catch_warnings():
+                warnings.simplefilter("ignore")
+                cases, _, _ = kernels.cases_for_expressions(name, [(expr, pts)])
+        except Exception as ex:  # unsupported expression: the descriptor / numeric parts report what matters
+            chk.hist["stores-skipped:" + type(ex).__name__] = chk.hist.get("stores-skipped:" + type(ex).__name__, 0) + 1
+            continue
+        args = sorted(ufl.algorithms.extract_arguments(expr), key=lambda a: a.number())
+        adims = [_dim(a.ufl_function_space().ufl_element()) for a in args]
+        vshape = [int(x) for x in expr.ufl_shape]
+        P = int(pts.shape[0])
+        for c in cases:
+            r = driver.ask(f"(exprstores {c.ast_sexp} {P} {sx(vshape)} {sx(adims)})")
+            if r[0] != "ok":
+                chk.disagree("exprstores command fails on an expression kernel", {"case": name, "reply": r})
+                continue
+            ok, nstores, shape = r[1], int(r[2]), ints(r[3])
+            if _prod(shape) != c.sizes["A"]:
+                chk.disagree("exprAShape vs the contract extent of A", {"case": name, "shape": shape, "A": c.sizes["A"]})
+            if ok != "true":
+                chk.disagree("a store into A of an expression kernel does not have the MultiIndex shape [P, C, D] / (point, component, dof) "
+                             "symbols the layout model predicts (exprStoresB fails)", {"case": name, "kernel": c.name, "shape": shape, "stores": nstores})
+            chk.case("c04-stores", key=(f"{name}|{shape}|{nstores}" if nstores else None))
+            done += 1
+    return done
 
 
 def check_c04_descriptor(chk, driver):
@@ -640,8 +708,15 @@ def check_c04_descriptor(chk, driver):
             chk.disagree("expression original_constant_offsets", {"case": name, "shapes": shapes, "model": ints(koffs)})
         # --- generated C descriptor vs model
         code, _ = ffcx.compiler.compile_ufl_objects([(expr, pts)], options=opts, namespace="lc")
-        cname = re.search(r"ufcx_expression (expression_[0-9a-f]+) =", code[1]).group(1)
-        cd = _parse_c_descriptor(code[1], cname)
+        mname = re.search(r"ufcx_expression (expression_[0-9a-f]+) =", code[1])
+        if mname is None:
+            chk.disagree("expression template changed: cannot read the name of the ufcx_expression struct", {"case": name})
+            continue
+        try:
+            cd = _parse_c_descriptor(code[1], mname.group(1))
+        except TemplateChanged as ex:
+            chk.disagree(f"expression template changed: cannot read {ex}", {"case": name})
+            continue
         ctext = {
             "num_points": cd["num_points"], "entity_dimension": cd["entity_dimension"], "value_shape": cd["value_shape"],
             "num_components": cd["num_components"], "rank": cd["rank"], "num_coefficients": cd["num_coefficients"],
